@@ -718,9 +718,10 @@ def c08(tier):
             T("transformer", "VerifC16_SyntaxError"),
             T("transformer", "VerifC07_Merge", {"SCEN": 0, "F": 2, "DECLS": 2, "RELS": 1, "CONDS": 1, "FAULTS": 1, "N": 1, "NR": 1}),
             LJ("VerifC08_ListenerRecovery", tier, NODES=1, DEPTH=0, SIBLINGS=0, CONDS=1, FIXLAYOUT=1, PARAMS=1, EXTEND=1, MODULES=1),
-            T("graph", "VerifC08_GraphDegenerate", {"DEPTH": W(tier, 1, 2)})]
+            T("graph", "VerifC08_GraphDegenerate", {"DEPTH": W(tier, 1, 2)}),
+            T("graph", "VerifC08_PlainGraphDegenerate")]
     out = engine_a_check("C08", tier, jobs, {"VerifC08_PrinterDegenerate": ["accepted", "rejected"], "VerifC08_ConditionsDegenerate": ["accepted", "rejected"], "VerifC15_Manifest": ["accepted", "rejected"],
-                                             "VerifC16_SyntaxError": ["recorded"], "VerifC07_Merge": ["rejected"], "VerifC08_ListenerRecovery": ["walked"], "VerifC08_GraphDegenerate": ["accepted", "rejected"]},
+                                             "VerifC16_SyntaxError": ["recorded"], "VerifC07_Merge": ["rejected"], "VerifC08_ListenerRecovery": ["walked"], "VerifC08_GraphDegenerate": ["accepted", "rejected"], "VerifC08_PlainGraphDegenerate": ["accepted"]},
                          ["arbitrary bytes through the ANTLR lexer/parser, protojson and yaml.v3 and the complexity claim are outside (not encoded)",
                           "decided: no Go run-time panic on any explored path of the hand-written code (panic monitor)"], "",
                          bounds={"printer": "degenerate rewrite trees <= %d nodes (nil children, unset oneofs, operators without operands), nil metadata/restrictions/type definitions, 7 degenerate condition shapes" % W(tier, 4, 5),
